@@ -70,9 +70,20 @@ def rejectIdx (p : Int → Nat → Bool) (l : List Int) : List Int := filterIdx 
 /-- the encoding of the interface{} family: the integer `-1` stands for the nil interface -/
 def nilCode : Int := -1
 
-/-- `FilterNotNil`: nothing is nil in the generic (int) family -/
-def notNil (iface : Bool) (l : List Int) : List Int :=
-  if iface then l.filter (fun x => x != nilCode) else l
+/-- in the families with pointer elements the integer `-2` stands for a typed nil POINTER (inside an interface{}
+    it is not the nil interface, but it is just as absent — the notion of `Maybe`, C01) -/
+def nilPtrCode : Int := -2
+
+/-- the element is absent: the untyped nil or a nil pointer -/
+def isAbsent (x : Int) : Bool := x == nilCode || x == nilPtrCode
+
+/-- `FilterNotNil` removes exactly the absent elements; `nilable = false`: the element type (int) has none -/
+def notNil (nilable : Bool) (l : List Int) : List Int :=
+  if nilable then l.filter (fun x => !isAbsent x) else l
+
+/-- `FilterNotNil` on a stream of POINTER elements (family `P:`): `-1` is the nil pointer, every other code a
+    non-nil pointer -/
+def notNilPtr (l : List Int) : List Int := l.filter (fun x => x != nilCode)
 
 def distinct (l : List Int) : List Int := l.eraseDups
 
